@@ -212,6 +212,29 @@ class Verifier(Executor):
             else:
                 names.add(nm)
 
+    def havoc_cases(self, st, names, objs, tag, lc):
+        """havoc the write set; variables of a declared sum type (lc['var_types']) fork into one state per case"""
+        self.havoc(st, names, objs, tag)
+        states = [st]
+        for nm, handler in (lc.get("var_types") or {}).items():
+            if nm in names:
+                nxt = []
+                for s in states:
+                    for alt in handler(self, s, tag):
+                        s2 = s.fork()
+                        alt(s2)
+                        nxt.append(s2)
+                states = nxt
+        for s in states:
+            for nm in names:
+                if nm in s.env and not is_scalar(s.env[nm]) and nm not in (lc.get("var_types") or {}):
+                    v = s.env[nm]
+                    if v is None or isinstance(v, (tuple, dict)):
+                        raise Unsupported(f"loop writes variable {nm!r} of a non-scalar type without a var_types declaration")
+                    if isinstance(v, (Arr, AExpr, Opaque, FuncRef)):
+                        del s.env[nm]  # must be re-assigned before use in the iteration
+        return states
+
     def havoc(self, st, names, objs, tag):
         for nm in names:
             if nm in st.env:
@@ -279,38 +302,39 @@ class Verifier(Executor):
         st.pre_stack = st.pre_stack + [pre]
         genv = {"_n": n}
         # init
+        self.apply_hints(st, lc.get("init_hints"), {idx: 0, **genv})
         self.check_invariants(st, lc, "inv-init", {idx: 0, **genv}, line)
         results = []
         # arbitrary iteration
-        s = st.fork()
-        self.havoc(s, names, objs, "@L%d" % line)
-        k = fresh_int(idx)
-        s.pc.append(z3.And(k >= 0, k < zint(n)))
-        self.assume_invariants(s, lc, {idx: k, **genv})
-        if self.prover.feasible(self.axioms + s.pc):
+        for s in self.havoc_cases(st.fork(), names, objs, "@L%d" % line, lc):
+            k = fresh_int(idx)
+            s.pc.append(z3.And(k >= 0, k < zint(n)))
+            self.assume_invariants(s, lc, {idx: k, **genv})
+            if not self.prover.feasible(self.axioms + s.pc):
+                continue
             bind(s, k)
+            s.pre_stack = s.pre_stack + [("it0", s.snapshot())]
             self.apply_hints(s, lc.get("hints"), {idx: k, **genv})
             for s2, out in self.exec_block(node.body, s):
                 if out[0] in ("next", "continue"):
                     self.apply_hints(s2, lc.get("step_hints"), {idx: k, **genv})
                     self.check_invariants(s2, lc, "inv-step", {idx: k + 1, **genv}, line)
                 elif out[0] == "break":
-                    s2.pre_stack = s2.pre_stack[:-1]
+                    s2.pre_stack = s2.pre_stack[:-2]
                     results.append((s2, ("next",)))
                 else:
-                    s2.pre_stack = s2.pre_stack[:-1]
+                    s2.pre_stack = s2.pre_stack[:-2]
                     results.append((s2, out))
         # exit
-        e = st.fork()
-        self.havoc(e, names, objs, "@X%d" % line)
-        self.assume_invariants(e, lc, {idx: n, **genv})
-        self.apply_hints(e, lc.get("exit_hints"), {idx: n, **genv})
-        e.pre_stack = e.pre_stack[:-1]
-        if self.prover.feasible(self.axioms + e.pc):
-            if node.orelse:
-                results.extend(self.exec_block(node.orelse, e))
-            else:
-                results.append((e, ("next",)))
+        for e in self.havoc_cases(st.fork(), names, objs, "@X%d" % line, lc):
+            self.assume_invariants(e, lc, {idx: n, **genv})
+            self.apply_hints(e, lc.get("exit_hints"), {idx: n, **genv})
+            e.pre_stack = e.pre_stack[:-1]
+            if self.prover.feasible(self.axioms + e.pc):
+                if node.orelse:
+                    results.extend(self.exec_block(node.orelse, e))
+                else:
+                    results.append((e, ("next",)))
         return results
 
     def unroll_for(self, node, st, n, bind):
@@ -361,16 +385,19 @@ class Verifier(Executor):
         self.also_modifies(lc, st, names, objs)
         pre = st.snapshot()
         st.pre_stack = st.pre_stack + [pre]
+        self.apply_hints(st, lc.get("init_hints"), {})
         self.check_invariants(st, lc, "inv-init", {}, line)
         results = []
-        s = st.fork()
-        self.havoc(s, names, objs, "@L%d" % line)
-        self.assume_invariants(s, lc, {})
         dec = lc.get("decreases")
-        for s0, c in self.eval_multi(node.test, s):
+        iter_states = []
+        for s in self.havoc_cases(st.fork(), names, objs, "@L%d" % line, lc):
+            self.assume_invariants(s, lc, {})
+            iter_states.extend(self.eval_multi(node.test, s))
+        for s0, c in iter_states:
             for s1, go in self.branch(s0, c):
                 if not go:
                     continue
+                s1.pre_stack = s1.pre_stack + [("it0", s1.snapshot())]
                 m0 = self.eval_measure(dec, s1) if dec else None
                 self.apply_hints(s1, lc.get("hints"), {})
                 for s2, out in self.exec_block(node.body, s1):
@@ -381,16 +408,18 @@ class Verifier(Executor):
                             m1 = self.eval_measure(dec, s2)
                             self.oblige(s2, "term", "decreases", self.lex_less(m1, m0), tags={"C04"}, line=line)
                     elif out[0] == "break":
-                        s2.pre_stack = s2.pre_stack[:-1]
+                        s2.pre_stack = s2.pre_stack[:-2]
                         results.append((s2, ("next",)))
                     else:
-                        s2.pre_stack = s2.pre_stack[:-1]
+                        s2.pre_stack = s2.pre_stack[:-2]
                         results.append((s2, out))
         # exit: invariant and not test
-        e = st.fork()
-        self.havoc(e, names, objs, "@X%d" % line)
-        self.assume_invariants(e, lc, {})
-        for e0, c in self.eval_multi(node.test, e):
+        exit_states = []
+        for e in self.havoc_cases(st.fork(), names, objs, "@X%d" % line, lc):
+            self.assume_invariants(e, lc, {})
+            self.apply_hints(e, lc.get("exit_hints"), {})
+            exit_states.extend(self.eval_multi(node.test, e))
+        for e0, c in exit_states:
             for e1, go in self.branch(e0, c):
                 if go:
                     continue
@@ -533,6 +562,10 @@ class Verifier(Executor):
         for gname in set(con.extra.get("ghost_calls", {}).values()):
             st.env[gname] = 0
         for gname, gval in con.extra.get("ghost_init", {}).items():
+            if gval == "emptylist":
+                lo_ = ListObj(gname)
+                st.heap[lo_.id] = (0, z3.K(INT, z3.IntVal(0)))
+                gval = lo_
             st.env[gname] = gval
         for gname in con.ghost:
             st.env.setdefault(gname, st.ghost_env[gname])
